@@ -44,6 +44,8 @@ def gen(rng, nops):
             if rng.random() < 0.3:
                 now += rng.choice([1, 600, 1000, 2000, 130000])
                 lines.append("ADV %d" % now)
+    if shared and rng.random() < 0.15:
+        lines.append("GHOST+ resolver %s c" % hexs(HOST))      # an earlier resolver for the same host on the same server and cache
     lines.append("NEW 0 resolver %s %s" % (hexs(HOST), "c" if shared else "-"))
     for _ in range(nops):
         r = rng.random()
